@@ -173,6 +173,8 @@ class TagWorker(Worker):
                 for a, arg in plan_for(x, tag):
                     if a == 'sleep':
                         time.sleep(arg)
+                    elif a == 'return-exc':
+                        return Boom(tag, tid(x))  # returned, not raised: the library treats an exception value as this request's failure
                     elif a == 'fail':
                         if arg == 'const':
                             raise ValueError('bad input')  # SITE-MARK-7f3a call-const (the same class and message for every request)
